@@ -50,36 +50,96 @@ func runC04(c *Ctx) {
 		c.check(bad == "", "LEX-REGULAR", "postscript.isRegular", "regular characters = bytes > 32 except ( ) < > [ ] { } / %", fd.Pos(), "256 byte values evaluated", "the regular-character class differs from the PLRM: "+bad)
 	}
 
-	// ---- white space in SkipWhiteSpace
+	// ---- white space in SkipWhiteSpace: what one pass of the loop does with each byte value
 	{
-		fd := c.funcDecl("postscript", "scanner", "SkipWhiteSpace")
-		var ws *ast.IfStmt
-		var v types.Object
-		ast.Inspect(fd.Body, func(n ast.Node) bool {
-			if ifs, ok := n.(*ast.IfStmt); ok && ws == nil {
-				if vv := singleByteVar(info, ifs.Cond); vv != nil {
-					ws, v = ifs, vv
+		fn := c.method("postscript", "scanner", "SkipWhiteSpace")
+		fname := "postscript.(*scanner).SkipWhiteSpace"
+		scannerT := c.typeObj("postscript", "scanner")
+		H := loopHeader(fn)
+		classify := func(b int) (string, string) {
+			ev := &ssaEval{c: c, bind: map[ssa.Value]sv{}, mem: map[string]sv{}}
+			var calls []string
+			ev.noInline = func(*ssa.Function) bool { return true }
+			ev.load = func(ld *ssa.UnOp, addr sv) (sv, bool) {
+				if bt, ok := ld.Type().Underlying().(*types.Basic); ok && bt.Info()&types.IsInteger != 0 {
+					return intV(1), true // not at the start of a line
 				}
+				return symV("v:" + addr.s), true
 			}
-			return true
-		})
-		if ws == nil {
-			c.fail("LEX-WHITESPACE", "postscript.(*scanner).SkipWhiteSpace", "white-space test", fd.Pos(), "no white-space test on the peeked byte found")
-		} else {
-			set, err := byteSet(info, ws.Cond, v)
-			want := setOf(func(b int) bool { return b <= 32 })
-			c.check(err == nil && set == want, "LEX-WHITESPACE", "postscript.(*scanner).SkipWhiteSpace", "bytes skipped between tokens = 0..32", ws.Pos(), setString(set), "the white-space class between tokens is {"+setString(set)+"}, expected 0-32")
-			// the comment character
-			okPct := false
-			ast.Inspect(ws, func(n ast.Node) bool {
-				if be, ok := n.(*ast.BinaryExpr); ok && be.Op == token.EQL {
-					if k, ok := constIntOf(info, be.Y); ok && k == '%' {
-						okPct = true
+			ev.call = func(call ssa.CallInstruction, args []sv) (sv, bool) {
+				if call == nil {
+					return sv{}, false
+				}
+				sc := call.Common().StaticCallee()
+				if sc == nil || sc.Signature.Recv() == nil || !pointsTo(sc.Signature.Recv().Type(), scannerT) {
+					return sv{}, false
+				}
+				res := sc.Signature.Results()
+				// the peek: () → (byte, error)
+				if res.Len() == 2 && len(calls) == 0 {
+					if bt, ok := res.At(0).Type().Underlying().(*types.Basic); ok && bt.Kind() == types.Uint8 {
+						return sv{k: svTuple, tup: []sv{intV(int64(b)), {k: svNil}}}, true
 					}
 				}
-				return true
+				calls = append(calls, sc.Name())
+				var tup []sv
+				for k := 0; k < res.Len(); k++ {
+					if bt, ok := res.At(k).Type().Underlying().(*types.Basic); ok && bt.Info()&types.IsBoolean != 0 {
+						tup = append(tup, boolV(false))
+					} else {
+						tup = append(tup, sv{k: svNil})
+					}
+				}
+				switch len(tup) {
+				case 0:
+					return sv{}, true
+				case 1:
+					return tup[0], true
+				}
+				return sv{k: svTuple, tup: tup}, true
+			}
+			fr := &frame{vals: map[ssa.Value]sv{}}
+			fr.vals[fn.Params[0]] = sv{k: svAddr, s: "s"}
+			back := false
+			first := true
+			_, _, ret := ev.runBlocks(fr, fn.Blocks[0], nil, func(next, from *ssa.BasicBlock) bool {
+				if next == H && !first {
+					back = true
+					return true
+				}
+				if next == H {
+					first = false
+				}
+				return false
 			})
-			c.check(okPct, "LEX-WHITESPACE", "postscript.(*scanner).SkipWhiteSpace", "% starts a comment between tokens", ws.Pos(), "b == '%'", "comments are no longer recognised by '%' between tokens")
+			switch {
+			case back:
+				return "loop:" + strings.Join(calls, ","), ""
+			case len(ret) == 1 && ret[0].k == svNil:
+				return "return:" + strings.Join(calls, ","), ""
+			}
+			return "?", ev.why
+		}
+		if H == nil {
+			c.undecided("LEX-WHITESPACE", fname, "white-space loop", fn.Pos(), "no loop in SkipWhiteSpace")
+		} else {
+			ws, _ := classify(' ')
+			bad := ""
+			var set [256]bool
+			for b := 0; b < 256; b++ {
+				k, why := classify(b)
+				if k == "?" {
+					bad = fmt.Sprintf("byte %d: not evaluable (%s)", b, why)
+					break
+				}
+				set[b] = k == ws
+			}
+			want := setOf(func(b int) bool { return b <= 32 })
+			okWS := bad == "" && strings.HasPrefix(ws, "loop:") && ws != "loop:" && set == want
+			c.check(okWS, "LEX-WHITESPACE", fname, "bytes skipped between tokens = 0..32", fn.Pos(), setString(set), "the white-space class between tokens is {"+setString(set)+"}, expected 0-32 "+bad)
+			pct, _ := classify('%')
+			tok, _ := classify('a')
+			c.check(strings.HasPrefix(pct, "loop:") && pct != ws && pct != "loop:" && tok == "return:", "LEX-WHITESPACE", fname, "% starts a comment between tokens; anything else starts a token", fn.Pos(), "'%' → "+pct+"; 'a' → "+tok, fmt.Sprintf("between tokens '%%' leads to %s and a regular character to %s", pct, tok))
 		}
 	}
 
